@@ -13,7 +13,7 @@ TECHNIQUE = "runtime monitoring: row/ledger monitor with a date-based reference 
 ANCHORS = ["solution/check_groundwater_table.py", "solution/capillary_rise.py",
            "solution/groundwater_inflow.py", "initialize/read_groundwater_table.py",
            "initialize/read_model_initial_conditions.py"]
-RULE = ("every built-in soil + custom soils (incl. 4-decimal hydraulic values), tables 0.04-50 m, "
+RULE = ("every built-in soil + custom soils (incl. 4-decimal hydraulic values), tables 0-50 m, "
         "constant and varying (observation records longer than the window; the same GroundWater object "
         "handed to a second model over a later window) across the profile bottom and the root zone, deepened profiles, dry and "
         "saturated starts, all strategies; plus configurations without a table, and pairs "
@@ -51,7 +51,7 @@ def cases(tier, seed):
             sp = gen.config(rng, p_gw=0.0, seasons=(1, 2), p_custom=0.3, hostile=True)
             out.append({"spec": sp})
             continue
-        depths = [(0.04, 0.2, 0.4, 0.6, 0.9), (1.0, 1.3, 1.6, 2.0), (2.5, 3.5, 5.0), (0.3, 0.8, 1.5, 2.5, 6.0, 30.0)][cls]
+        depths = [(0.0, 0.04, 0.2, 0.4, 0.6, 0.9), (1.0, 1.3, 1.6, 2.0), (2.5, 3.5, 5.0), (0.3, 0.8, 1.5, 2.5, 6.0, 30.0)][cls]
         kw = dict(p_gw=1.0, gw_depths=depths, seasons=(1, 2), p_custom=0.4, wet=(i % 4 == 0), dry=(i % 4 == 1))
         if i % 10 == 7:
             kw.update(crops=["Maize", "Cotton", "Sunflower", "AlfalfaGDD", "Sorghum"])  # deepened profiles
